@@ -97,7 +97,8 @@ class Geom:
 
 RATIOS = [1, 2, 2.5, 3, 1.7, 4.3, 0.5, 1 / 3, 0.4]
 RESOLUTIONS = [0.8, 0.3, 2.0, 30.0, 0.5, 1.0]
-ORIGINS = [(0.0, 0.0), (0.0, -3456789.3), (512345.6, 7612345.7), (-7600000.0, 1234.5), (300000.0, 6200000.0),
+# (an origin of exactly (0, 0) with unit resolution is an identity transform, which rasterio / GDAL treat as "not georeferenced")
+ORIGINS = [(16.0, 48.0), (0.0, -3456789.3), (512345.6, 7612345.7), (-7600000.0, 1234.5), (300000.0, 6200000.0),
            (4.0, 100.0)]
 
 
@@ -127,7 +128,7 @@ def aligned_geom(rng, max_src=40):
     every coordinate and every area weight GDAL computes is exact, so results cannot carry block-origin float noise."""
     ratio = rng.choice([1, 2, 2, 4])
     ref_res = rng.choice([0.5, 1.0, 2.0])
-    x0, y0 = rng.choice([(0.0, 0.0), (4.0, 100.0), (-64.0, 32.0)])
+    x0, y0 = rng.choice([(16.0, 48.0), (4.0, 100.0), (-64.0, 32.0)])
     off = (rng.randint(1, 5) + rng.choice([0, 0, .5]), rng.randint(1, 5) + rng.choice([0, 0, .5]))
     sh = (rng.randint(8, max_src), rng.randint(8, max_src))
     ref_shape = (int(math.ceil(off[0] + sh[0] / ratio)) + rng.randint(2, 5), int(math.ceil(off[1] + sh[1] / ratio)) + rng.randint(2, 5))
